@@ -392,6 +392,10 @@ def register(hub, props=("C05", "C06")):
         if isinstance(rhs, fd.FlodymArray) and rhs is not target and isinstance(rhs.values, np.ndarray) and rhs.values.size and np.shares_memory(target.values, rhs.values):
             v5(call, "target-shares-memory-with-the-assigned-array", key=keyrepr(key), target_dims=list(xs.letters), source_dims=list(rhs_pre.letters) if isinstance(rhs_pre, Snap) else None)
         # ndarray sources are copied
+        if isinstance(rhs, np.ndarray) and rhs.size and not rhs.flags.writeable:
+            # a read-only array may still be a view of memory its owner can write: it is copied like any other
+            if np.shares_memory(target.values, rhs) or not target.values.flags.writeable:
+                v5(call, "assigned-ndarray-not-copied:read-only-source", key=keyrepr(key))
         if isinstance(rhs, np.ndarray) and rhs.size and rhs.flags.writeable:
             if np.shares_memory(target.values, rhs):
                 v5(call, "assigned-ndarray-not-copied:shares-memory", key=keyrepr(key))
